@@ -179,6 +179,23 @@ def computeTimeStep (p : Params) (s : TM) (iters : Option Int) (recompute : Bool
                recompNum := s.recompNum + 1, idx := if s.aboutToHit then s.idx - 1 else s.idx }
   else (s, .err .recompExhausted)
 
+/-! ### restart (`set_time_and_dt_from_exported_steps`, used by `load_data_from_vtu` / `load_data_from_pvd`)
+
+The clock and the step are restored from the exported history.  The model follows the PROPERTY, i.e. the
+repaired method (fixes/C09-restart-schedule-cursor.diff): the schedule cursor is synchronised with the
+restored clock — `_scheduled_idx` becomes the first index ≥ 1 whose scheduled time the clock has neither
+passed nor reached within tolerance, the flag and the recomputation counter are reset.  (The code as it is
+leaves `_scheduled_idx`, the flag and the counter as they were — 1 / False / 0 on a fresh manager — which
+makes the next schedule correction compute a NEGATIVE step; known finding `restart-stale-schedule-cursor`.) -/
+
+def nextIdxFrom (rtol atol t : Rat) : List Rat → Nat → Nat
+  | [], k => k
+  | x :: rest, k => if t < x && !isclose rtol atol t x then k else nextIdxFrom rtol atol t rest (k + 1)
+
+def restore (p : Params) (s : TM) (t dt : Rat) : TM :=
+  { s with time := t, dt := dt, recompNum := 0, aboutToHit := false,
+           idx := nextIdxFrom p.rtol p.atol t (p.schedule.drop 1) 1 }
+
 /-! ### the time loop
 
 `while not final_time_reached(): increase_time(); increase_time_index(); converged = solve()`
@@ -265,6 +282,12 @@ instance (p : Params) : Decidable (SmallTol p) := by unfold SmallTol; infer_inst
 /-- the scheduled time `y` is hit in the sense of the constructor's compatibility check:
     `np.isclose(y, a)` for an accepted time `a` (tolerance relative to `a`) -/
 def HitByC (p : Params) (acc : List Rat) (y : Rat) : Prop := ∃ a ∈ acc, isclose p.rtol p.atol y a = true
+
+/-- a run restarted from the exported `(time, dt)` of its current state: a fresh manager (`init p`) whose
+    clock and step are restored, with the accepted times so far -/
+def restarted (p : Params) (r : Run) : Run :=
+  { tm := restore p { init p with timeIndex := r.tm.timeIndex } r.tm.time r.tm.dt, accepted := r.accepted,
+    status := statusOf p r.tm }
 
 /-- all outcomes on the tape are converged steps -/
 def AllConverged (os : List Outcome) : Prop := ∀ o ∈ os, ∃ it, o = .converged it
